@@ -679,6 +679,23 @@ def P31():
     )
 
 
+def P32():
+    """A shared difference that is also a denominator: at x == y the temporary is exactly 0.0 (a floating-point event)."""
+    x, y, z, dt = V("x"), V("y"), V("z"), V("dt")
+    d = x - y
+    return Program(
+        id="P32-shared-denominator",
+        state=["x", "y", "z"],
+        control=[],
+        calibration=[],
+        update={"x": x + dt * z + d * d, "y": y + dt * X.sin(d), "z": X.atan(dt / d) + d},
+        process_noise={},
+        sensors={"s": {"m": z + d}},
+        sensor_noise={"s": {"m": 0.5}},
+        note="common sub-expression used as a divisor",
+    )
+
+
 def quick_programs():
     return [P1(), P3(), P8()]
 
@@ -689,7 +706,7 @@ def all_fixed():
 
 def catalogue():
     """Every fixed program, including the model-level-only ones (replay looks programs up by id here)."""
-    return all_fixed() + [P11(), P18(), P21(), P22(), P23(), P24(), P25(), P26(), P27(), P28(), P29(), P30(), P31()]
+    return all_fixed() + [P11(), P18(), P21(), P22(), P23(), P24(), P25(), P26(), P27(), P28(), P29(), P30(), P31(), P32()]
 
 
 def with_noise(p, process=None, sensor=None, pid=None):
